@@ -808,3 +808,302 @@ Section Prefixes.
     apply productive_bounded; [|reflexivity]. intros s x. simpl. lia.
   Qed.
 End Prefixes.
+
+(* ---- cumulative reduction (scanl): one item of look-ahead ---------------------------- *)
+Section Scanl.
+  Context {A : Type}.
+  Variable f : A -> A -> A.
+
+  Lemma partial_S (src : nat -> A) k : partial f src (S k) = f (partial f src k) (src (S k)).
+  Proof. unfold partial. rewrite seq_S, map_app, fold_left_app. reflexivity. Qed.
+
+  Lemma trace_scanl (src : nat -> A) k :
+    trace (m_scanl f) src (S k) = (Some (partial f src k), prefix (partial f src) k).
+  Proof.
+    induction k as [|k IH]; [reflexivity|].
+    rewrite trace_S, IH, feed_step_pair. simpl. rewrite partial_S, (prefix_S (partial f src)). reflexivity.
+  Qed.
+
+  Lemma scanl_exact (src : nat -> A) n :
+    exact (m_scanl f) src (S n) (prefix (partial f src) (S n)) (S (S n)).
+  Proof.
+    pose proof (run_exact_pred (m_scanl f) src (S n) (S (S n))) as H.
+    rewrite trace_scanl in H. cbn [fst snd] in H. rewrite firstn_prefix in H by lia. apply H.
+    - reflexivity.
+    - rewrite prefix_length. lia.
+    - right. replace (S (S n) - 1) with (S n) by lia. rewrite trace_scanl. cbn [snd]. rewrite prefix_length. lia.
+  Qed.
+
+  Lemma scanl_bounded (d : A) : lin_bounded (m_scanl f) 1 1.
+  Proof.
+    apply (bounded_from_trace _ d). intros src n k Hk. split; [|reflexivity].
+    destruct k as [|k]; [lia|]. rewrite trace_scanl. cbn [snd]. rewrite prefix_length. lia.
+  Qed.
+End Scanl.
+
+Lemma fold_left_add_sum (l : list Z) (a : Z) : fold_left Z.add l a = (a + fold_right Z.add 0 l)%Z.
+Proof.
+  revert a. induction l as [|x l IH]; intro a; simpl; [lia|]. rewrite IH. lia.
+Qed.
+
+(* the i-th cumulative sum is the sum of the first i+1 items *)
+Lemma partial_add_is_sum (src : nat -> Z) i : partial Z.add src i = fold_right Z.add 0%Z (prefix src (S i)).
+Proof.
+  unfold partial. rewrite fold_left_add_sum, prefix_cons. simpl. f_equal.
+  unfold prefix. rewrite <- seq_shift, map_map. reflexivity.
+Qed.
+
+(* ---- deltas and other functions of two neighbouring items ------------------------------ *)
+Section Pairwise.
+  Context {I O : Type}.
+  Variable g : I -> I -> O.
+
+  Lemma trace_pairwise (src : nat -> I) k :
+    trace (m_pairwise g) src (S k) = (Some (src k), prefix (fun i => g (src i) (src (S i))) k).
+  Proof.
+    induction k as [|k IH]; [reflexivity|].
+    rewrite trace_S, IH, feed_step_pair. simpl. rewrite (prefix_S (fun i => g (src i) (src (S i)))). reflexivity.
+  Qed.
+
+  Lemma pairwise_exact (src : nat -> I) n :
+    exact (m_pairwise g) src (S n) (prefix (fun i => g (src i) (src (S i))) (S n)) (S (S n)).
+  Proof.
+    pose proof (run_exact_pred (m_pairwise g) src (S n) (S (S n))) as H.
+    rewrite trace_pairwise in H. cbn [fst snd] in H. rewrite firstn_prefix in H by lia. apply H.
+    - reflexivity.
+    - rewrite prefix_length. lia.
+    - right. replace (S (S n) - 1) with (S n) by lia. rewrite trace_pairwise. cbn [snd]. rewrite prefix_length. lia.
+  Qed.
+
+  Lemma pairwise_bounded (d : I) : lin_bounded (m_pairwise g) 1 1.
+  Proof.
+    apply (bounded_from_trace _ d). intros src n k Hk. split; [|reflexivity].
+    destruct k as [|k]; [lia|]. rewrite trace_pairwise. cbn [snd]. rewrite prefix_length. lia.
+  Qed.
+End Pairwise.
+
+(* ---- overlapping windows of k = S k' items ---------------------------------------------- *)
+Section Windows.
+  Context {I : Type}.
+  Variable k' : nat.
+
+  Lemma trace_windows_fill (src : nat -> I) m : m <= k' ->
+    trace (m_windows (S k')) src m = (prefix src m, []).
+  Proof.
+    induction m as [|m IH]; intro Hm; [reflexivity|].
+    rewrite trace_S, IH, feed_step_pair by lia. cbn [fst snd m_windows step].
+    rewrite <- prefix_S, prefix_length.
+    replace (S m =? S k') with false by (symmetry; apply Nat.eqb_neq; lia). reflexivity.
+  Qed.
+
+  Lemma tl_prefix (f : nat -> I) a : tl (prefix f (S a)) = prefix (fun j => f (S j)) a.
+  Proof. rewrite prefix_cons. reflexivity. Qed.
+
+  Lemma trace_windows (src : nat -> I) d :
+    trace (m_windows (S k')) src (S k' + d)
+    = (prefix (fun j => src (S d + j)) k', prefix (window src (S k')) (S d)).
+  Proof.
+    induction d as [|d IH].
+    - rewrite Nat.add_0_r, trace_S, trace_windows_fill, feed_step_pair by lia.
+      cbn [fst snd m_windows step]. rewrite <- prefix_S, prefix_length, Nat.eqb_refl, tl_prefix. reflexivity.
+    - replace (S k' + S d) with (S (S k' + d)) by lia.
+      rewrite trace_S, IH, feed_step_pair. cbn [fst snd m_windows step].
+      assert (E : prefix (fun j => src (S d + j)) k' ++ [src (S k' + d)] = window src (S k') (S d)).
+      { unfold window. rewrite prefix_S. replace (S k' + d) with (S d + k') by lia. reflexivity. }
+      rewrite E. unfold window at 1 2. rewrite prefix_length, Nat.eqb_refl, tl_prefix.
+      rewrite (prefix_S (window src (S k'))). f_equal.
+      apply prefix_ext. intros i _. f_equal. lia.
+  Qed.
+
+  Lemma windows_exact (src : nat -> I) n :
+    exact (m_windows (S k')) src (S n) (prefix (window src (S k')) (S n)) (S k' + n).
+  Proof.
+    pose proof (run_exact_pred (m_windows (S k')) src (S n) (S k' + n)) as H.
+    rewrite trace_windows in H. cbn [fst snd] in H. rewrite firstn_prefix in H by lia. apply H.
+    - reflexivity.
+    - rewrite prefix_length. lia.
+    - right. destruct n as [|n].
+      + replace (S k' + 0 - 1) with k' by lia. rewrite trace_windows_fill by lia. simpl. lia.
+      + replace (S k' + S n - 1) with (S k' + n) by lia. rewrite trace_windows. cbn [snd]. rewrite prefix_length. lia.
+  Qed.
+
+  Lemma windows_bounded (d : I) : lin_bounded (@m_windows I (S k')) 1 k'.
+  Proof.
+    apply (bounded_from_trace _ d). intros src n k Hk. split; [|reflexivity].
+    destruct n as [|n]; [lia|].
+    replace k with (S k' + (k - S k')) by lia. rewrite trace_windows. cbn [snd]. rewrite prefix_length. lia.
+  Qed.
+End Windows.
+
+(* ---- chunks of k = S k' items ------------------------------------------------------------- *)
+Section Chunks.
+  Context {I : Type}.
+  Variable k' : nat.
+
+  Lemma trace_chunks_row (src : nat -> I) q :
+    trace (m_chunks (S k')) src (q * S k') = ([], prefix (chunk src (S k')) q) ->
+    forall r, r <= k' ->
+    trace (m_chunks (S k')) src (q * S k' + r)
+    = (prefix (fun j => src (q * S k' + j)) r, prefix (chunk src (S k')) q).
+  Proof.
+    intros Hq r. induction r as [|r IH]; intro Hr.
+    - rewrite Nat.add_0_r. exact Hq.
+    - replace (q * S k' + S r) with (S (q * S k' + r)) by lia.
+      rewrite trace_S, IH, feed_step_pair by lia. cbn [fst snd m_chunks step].
+      rewrite <- (prefix_S (fun j => src (q * S k' + j))), prefix_length.
+      replace (S r =? S k') with false by (symmetry; apply Nat.eqb_neq; lia).
+      rewrite app_nil_r. reflexivity.
+  Qed.
+
+  Lemma trace_chunks_full (src : nat -> I) q :
+    trace (m_chunks (S k')) src (q * S k') = ([], prefix (chunk src (S k')) q).
+  Proof.
+    induction q as [|q IH]; [reflexivity|].
+    replace (S q * S k') with (S (q * S k' + k')) by lia.
+    rewrite trace_S, (trace_chunks_row src q IH k') by lia.
+    rewrite feed_step_pair. cbn [fst snd m_chunks step].
+    rewrite <- (prefix_S (fun j => src (q * S k' + j))), prefix_length, Nat.eqb_refl.
+    rewrite (prefix_S (chunk src (S k'))). reflexivity.
+  Qed.
+
+  Lemma trace_chunks (src : nat -> I) q r : r <= k' ->
+    trace (m_chunks (S k')) src (q * S k' + r)
+    = (prefix (fun j => src (q * S k' + j)) r, prefix (chunk src (S k')) q).
+  Proof. apply trace_chunks_row. apply trace_chunks_full. Qed.
+
+  Lemma chunks_exact (src : nat -> I) n :
+    exact (m_chunks (S k')) src (S n) (prefix (chunk src (S k')) (S n)) (S n * S k').
+  Proof.
+    pose proof (run_exact_pred (m_chunks (S k')) src (S n) (S n * S k')) as H.
+    rewrite trace_chunks_full in H. cbn [fst snd] in H. rewrite firstn_prefix in H by lia. apply H.
+    - reflexivity.
+    - rewrite prefix_length. lia.
+    - right. replace (S n * S k' - 1) with (n * S k' + k') by lia.
+      rewrite trace_chunks by lia. cbn [snd]. rewrite prefix_length. lia.
+  Qed.
+
+  Lemma chunks_bounded (d : I) : lin_bounded (@m_chunks I (S k')) (S k') 0.
+  Proof.
+    apply (bounded_from_trace _ d). intros src n k Hk. split; [|reflexivity].
+    pose proof (trace_length_mono (m_chunks (S k')) src (n * S k') k ltac:(lia)) as Hm.
+    rewrite trace_chunks_full in Hm. cbn [snd] in Hm. rewrite prefix_length in Hm. exact Hm.
+  Qed.
+End Chunks.
+
+(* ---- uniquify: relative to the position of the new item -------------------------------------- *)
+Section Uniquify.
+  Context {I : Type}.
+  Variable eqb : I -> I -> bool.
+
+  Lemma uniq_snoc l x :
+    uniq eqb (l ++ [x]) = if existsb (eqb x) (uniq eqb l) then uniq eqb l else uniq eqb l ++ [x].
+  Proof. unfold uniq. rewrite rev_unit. reflexivity. Qed.
+
+  Lemma trace_uniquify (src : nat -> I) k :
+    trace (m_uniquify eqb) src k = (uniq eqb (prefix src k), uniq eqb (prefix src k)).
+  Proof.
+    induction k as [|k IH]; [reflexivity|].
+    rewrite trace_S, IH, feed_step_pair. cbn [fst snd m_uniquify step].
+    rewrite prefix_S, uniq_snoc. destruct (existsb (eqb (src k)) (uniq eqb (prefix src k))); simpl.
+    - rewrite app_nil_r. reflexivity.
+    - reflexivity.
+  Qed.
+
+  Lemma uniquify_exact (src : nat -> I) n pos :
+    existsb (eqb (src pos)) (uniq eqb (prefix src pos)) = false ->
+    length (uniq eqb (prefix src pos)) = n ->
+    exact (m_uniquify eqb) src (S n) (uniq eqb (prefix src (S pos))) (S pos).
+  Proof.
+    intros Hnew Hn.
+    pose proof (run_exact_pred (m_uniquify eqb) src (S n) (S pos)) as H.
+    rewrite trace_uniquify in H. cbn [fst snd] in H.
+    assert (Hlen : length (uniq eqb (prefix src (S pos))) = S n).
+    { rewrite prefix_S, uniq_snoc, Hnew, app_length. simpl. lia. }
+    rewrite firstn_all2 in H by lia. apply H.
+    - reflexivity.
+    - lia.
+    - right. replace (S pos - 1) with pos by lia. rewrite trace_uniquify. cbn [snd]. lia.
+  Qed.
+
+  (* no item equals an earlier one: uniquify is the identity and pulls exactly n *)
+  Lemma uniq_distinct (src : nat -> I) k :
+    (forall i j, i < j -> eqb (src j) (src i) = false) -> uniq eqb (prefix src k) = prefix src k.
+  Proof.
+    intro Hd. induction k as [|k IH]; [reflexivity|].
+    rewrite prefix_S, uniq_snoc, IH.
+    replace (existsb (eqb (src k)) (prefix src k)) with false; [reflexivity|].
+    symmetry. apply not_true_is_false. intro Hex. apply existsb_exists in Hex.
+    destruct Hex as (y & Hy & Heq). unfold prefix in Hy. apply in_map_iff in Hy.
+    destruct Hy as (i & <- & Hi). apply in_seq in Hi. rewrite Hd in Heq by lia. discriminate.
+  Qed.
+
+  Lemma uniquify_distinct_exact (src : nat -> I) n :
+    (forall i j, i < j -> eqb (src j) (src i) = false) ->
+    exact (m_uniquify eqb) src n (prefix src n) n.
+  Proof.
+    intro Hd. destruct n as [|n]; [apply run_zero; reflexivity|].
+    pose proof (uniquify_exact src n n) as H. rewrite !uniq_distinct in H by exact Hd. apply H.
+    - apply not_true_is_false. intro Hex. apply existsb_exists in Hex.
+      destruct Hex as (y & Hy & Heq). unfold prefix in Hy. apply in_map_iff in Hy.
+      destruct Hy as (i & <- & Hi). apply in_seq in Hi. rewrite Hd in Heq by lia. discriminate.
+    - apply prefix_length.
+  Qed.
+
+  (* uniquify never invents or repeats items *)
+  Lemma uniq_rev_incl r x : In x (uniq_rev eqb r) -> In x r.
+  Proof.
+    induction r as [|y r IH]; simpl; [tauto|].
+    destruct (existsb (eqb y) (uniq_rev eqb r)); intro H.
+    - right. apply IH. exact H.
+    - apply in_app_or in H. destruct H as [H|[H|[]]]; [right; apply IH; exact H|left; exact H].
+  Qed.
+End Uniquify.
+
+(* ---- group consecutive, on a source whose neighbours differ ------------------------------------ *)
+Section Group.
+  Context {I : Type}.
+  Variable eqb : I -> I -> bool.
+
+  Lemma trace_group (src : nat -> I) k :
+    (forall i, eqb (src i) (src (S i)) = false) ->
+    trace (m_group eqb) src (S k) = (Some (src k, 1), prefix (fun i => [src i]) k).
+  Proof.
+    intro Hd. induction k as [|k IH]; [reflexivity|].
+    rewrite trace_S, IH, feed_step_pair. cbn [fst snd m_group step]. rewrite Hd.
+    rewrite (prefix_S (fun i => [src i])). reflexivity.
+  Qed.
+
+  Lemma group_exact (src : nat -> I) n :
+    (forall i, eqb (src i) (src (S i)) = false) ->
+    exact (m_group eqb) src n (prefix (fun i => [src i]) n) (S n).
+  Proof.
+    intro Hd. pose proof (run_exact (m_group eqb) src n (S n)) as H.
+    rewrite trace_group in H by exact Hd. cbn [snd] in H. rewrite firstn_prefix in H by lia. apply H.
+    - unfold ready. rewrite trace_group by exact Hd. cbn [fst snd]. rewrite prefix_length, Nat.leb_refl. reflexivity.
+    - intros j Hj. unfold ready. destruct j as [|j]; [apply andb_false_r|].
+      rewrite trace_group by exact Hd. cbn [fst snd]. rewrite prefix_length.
+      replace (n <=? j) with false by (symmetry; apply Nat.leb_gt; lia). reflexivity.
+  Qed.
+End Group.
+
+(* ---- chains of any length ------------------------------------------------------------------------ *)
+Definition linear {V} (m : machine V V) : Prop := exists a b, lin_bounded m a b.
+
+Lemma chain_linear {V} (rest : list (machine V V)) : forall m,
+  linear m -> Forall linear rest -> linear (chain m rest).
+Proof.
+  induction rest as [|m' rest IH]; intros m Hm Hrest; [exact Hm|].
+  inversion Hrest as [|? ? Hm' Hrest']; subst.
+  destruct Hm as (a1 & b1 & H1). destruct (IH m' Hm' Hrest') as (a2 & b2 & H2).
+  exists (a1 * a2), (a1 * b2 + b1). simpl. apply comp_lin_bounded; assumption.
+Qed.
+
+(* bound of a composition in terms of the runs, for any two machines *)
+Lemma comp_run_bound {I M O} (m1 : machine I M) (m2 : machine M O) f1 f2 :
+  bounded m1 f1 -> bounded m2 f2 -> forall src n fuel, f1 (f2 n) <= fuel ->
+  exists k, k <= f1 (f2 n) /\
+    run_until (comp m1 m2) src n fuel = Done (firstn n (snd (trace (comp m1 m2) src (f1 (f2 n))))) k.
+Proof.
+  intros H1 H2 src n fuel Hf.
+  apply (run_bounded (comp m1 m2) (fun n => f1 (f2 n)) (comp_bounded m1 m2 H1 H2) src n fuel Hf).
+Qed.
